@@ -313,6 +313,31 @@ def run_case(case, ctx):
         if d.stream is not new:
             ctx.viol(f"stream-getter-after-repoint:{cls}", info)
             return
+    # ---- built on the library's own stream class, later pointed at a user-written stream: what it draws then comes from that
+    # stream (a fresh instance on an equal-state stream draws the same), and the library's stream is left alone
+    from pydsol.core.streams import MersenneTwister as _MT
+    for pre in (0, 2):
+        plain, new, ref = _MT(seed), CountingStream(seed + 7), CountingStream(seed + 7)
+        d = _mk(cls, plain, args)
+        for _ in range(pre):
+            d.draw()
+        state = plain.save_state()
+        d.stream = new
+        fresh = _mk(cls, ref, args)
+        ctx.count("repoint_checks")
+        for k in range(20):
+            try:
+                a, b = d.draw(), fresh.draw()
+            except Exception as e:
+                ctx.viol(f"draw-raises-after-repoint:{cls}:{type(e).__name__}", {**info, "pre_draws": pre, "exc": repr(e)})
+                return
+            if fx(a) != fx(b) or new.calls != ref.calls:
+                ctx.viol(f"repointed-differs-from-fresh:{cls}", {**info, "pre_draws": pre, "draw_index": k, "repointed": fx(a), "fresh": fx(b),
+                                                                "built_on": "MersenneTwister", "uniforms_taken": [new.calls, ref.calls]})
+                return
+        if plain.save_state() != state:
+            ctx.viol(f"old-stream-consumed-after-repoint:{cls}", {**info, "pre_draws": pre, "built_on": "MersenneTwister"})
+            return
     # ---- a refused stream assignment (not a stream) changes nothing: the draws go on as those of an undisturbed twin
     for pre in (1, 2):
         sa_, sb_ = CountingStream(seed + 3), CountingStream(seed + 3)
@@ -397,7 +422,10 @@ def run_case(case, ctx):
         d = _mk(cls, same, args)
         for _ in range(pre):
             d.draw()
-        same.set_seed(seed + 11)
+        # (pre == 2: seeded again with the seed it already has - the same replication run twice)
+        newseed = seed if pre == 2 else seed + 11
+        ref = CountingStream(newseed)
+        same.set_seed(newseed)
         d.stream = same
         fresh = _mk(cls, ref, args)
         ctx.count("reseed_and_reassign_checks")
